@@ -5,6 +5,8 @@ import (
 	"go/token"
 	"go/types"
 	"strings"
+
+	"golang.org/x/tools/go/cfg"
 )
 
 func init() {
@@ -22,7 +24,8 @@ func rulesC13(c *Ctx) {
 	sessionP := sk.ParamOfNamed(pM, "keepaliveSession")
 	for _, gs := range sk.goStmts() {
 		if l := sk.LitArgOfGo(gs); l != nil {
-			for _, call := range l.AllCalls(l.Body, false) {
+			// (the ping itself may sit in a literal that the goroutine invokes on the spot)
+			for _, call := range l.AllCalls(l.Body, true) {
 				if nm, on := l.SelectorOn(call.Fun, sessionP); on && nm == "Ping" {
 					loop, goStmt = l, gs
 				}
@@ -42,23 +45,35 @@ func rulesC13(c *Ctx) {
 	var pingV, closeV = -1, -1
 	var closeVs []int
 	var errVar types.Object
+	pingF := loop // the function that holds the Ping call: the goroutine, or a literal it invokes on the spot
 	for v := 0; v < g.N; v++ {
 		n := g.Node(v)
 		if n == nil {
 			continue
 		}
-		for _, call := range loop.AllCalls(n, false) {
+		for _, call := range loop.AllCalls(n, true) {
 			s, ok := ast.Unparen(call.Fun).(*ast.SelectorExpr)
 			if !ok || loop.ObjOf(s.X) != types.Object(session) {
 				continue
 			}
+			inLit := c13pingLit(loop, n, call)
+			if inLit == nil && !c13directIn(loop, n, call) {
+				continue // inside a literal that is not invoked on the spot: not this vertex's call
+			}
 			switch s.Sel.Name {
 			case "Ping":
 				pingV = v
-				if as, ok := n.(*ast.AssignStmt); ok {
+				pingF = loop
+				if inLit != nil {
+					pingF = inLit
+				}
+				if as, ok := n.(*ast.AssignStmt); ok && len(as.Lhs) == 1 {
 					errVar = loop.ObjOf(as.Lhs[0])
 				}
 			case "Close":
+				if inLit != nil {
+					continue
+				}
 				closeV = v
 				closeVs = append(closeVs, v)
 			}
@@ -89,6 +104,9 @@ func rulesC13(c *Ctx) {
 			}
 		}
 		c.Need(ctr != nil, "keepalive loop: miss counter")
+		// decisions that are first classified and then acted upon (a verdict local set in one place, switched on in another)
+		// are followed: reachability below knows the verdict's value
+		vw := c13newView(loop, g)
 		nReset, nInc := 0, 0
 		incV := -1
 		for _, w := range loop.writesToVar(loop.Body, ctr, false) {
@@ -144,41 +162,10 @@ func rulesC13(c *Ctx) {
 				}
 				c.Check(okp, "counter:every-success-resets", loop, cond, "after an answered ping no path reaches the next ping, Close or exit without resetting the counter")
 				// no path from success to Close without a new failed ping
-				seen, _ := g.reach([]int{succ}, func(v int) bool { return v == pingV }, nil)
+				seen := vw.reach([]int{succ}, func(v int) bool { return v == pingV }, nil)
 				c.Check(!seen[closeV], "close:unreachable-from-success", loop, g.Node(closeV), "an answering peer is never closed: Close is unreachable from the success branch without another ping")
 			}
 		}
-		// Close guards (every Close site of the loop)
-		for i, closeV := range closeVs {
-			guards := g.GuardsAt(closeV)
-			okThr := hasAtom(guards, func(a Atom) bool {
-				x, y, op, ok := cmpOn(a.E, func(e ast.Expr) bool { return loop.ObjOf(e) == ctr })
-				if !ok || loop.ObjOf(x) != ctr || !loop.Root().aliasesOf(loop.ObjOf(y))[types.Object(thr)] {
-					return false
-				}
-				return (op == token.LSS && !a.Val) || (op == token.GEQ && a.Val)
-			})
-			c.Check(okThr && incV >= 0 && g.Dominates(incV, closeV), "close#"+itoa(i)+":only-at-threshold", loop, g.Node(closeV), "session.Close() is reached only through the false branch of counter < threshold, after the increment (guards: %s): with <= or a missing increment the session closes one ping early or late", atomsString(guards))
-			c.Check(hasAtom(guards, func(a Atom) bool {
-				ce, ok := a.E.(*ast.CallExpr)
-				return ok && !a.Val && loop.IsCallTo(ce, errIs) && loop.ObjOf(ce.Args[1]) == eMNF
-			}), "close#"+itoa(i)+":not-on-method-not-found", loop, g.Node(closeV), "a peer that reports ping as unsupported is not closed")
-		}
-		c.Pin("Close sites", len(closeVs), 1)
-		// method-not-found returns silently
-		okMNF := false
-		for _, cv := range g.condVertices() {
-			cond := g.Node(cv - 1).(ast.Expr)
-			if ce, ok := ast.Unparen(cond).(*ast.CallExpr); ok && loop.IsCallTo(ce, errIs) && loop.ObjOf(ce.Args[1]) == eMNF {
-				t, _ := g.BranchTargets(cv - 1)
-				seen, _ := g.reach([]int{t}, nil, nil)
-				okMNF = !seen[closeV] && !seen[pingV] && (incV < 0 || !seen[incV])
-			}
-		}
-		c.Check(okMNF, "method-not-found:silent-exit", loop, nil, "on method-not-found the goroutine exits without counting, pinging again or closing")
-		// after Close the loop ends
-		seen, _ := g.reach(g.succ[closeV], nil, nil)
-		c.Check(!seen[pingV], "close:then-exit", loop, g.Node(closeV), "after closing the session the goroutine exits")
 		// threshold normalisation precedes the goroutine
 		sg := sk.Graph()
 		okNorm := false
@@ -215,7 +202,117 @@ func rulesC13(c *Ctx) {
 				}
 			}
 		}
-		c.Check(okNorm, "threshold:normalised", sk, nil, "failureThreshold < 1 is normalised to 1 before the goroutine starts")
+		// the comparison of the counter that decides, as a whole condition: which branch closes, and what the counter is compared
+		// with in terms of the configured threshold
+		type c13cmp struct {
+			ev, closeEdge int
+			a, b          int64
+			hasMax        bool
+		}
+		var cmps []c13cmp
+		for _, cv := range g.condVertices() {
+			cond := g.Node(cv - 1).(ast.Expr)
+			neg := false
+			inner := ast.Unparen(cond)
+			for {
+				in, isNeg := stripNot(inner)
+				if !isNeg {
+					break
+				}
+				inner, neg = ast.Unparen(in), !neg
+			}
+			x, y, op, isCmp := cmpOn(inner, func(e ast.Expr) bool { return loop.ObjOf(e) == ctr })
+			if !isCmp || loop.ObjOf(x) != ctr {
+				continue
+			}
+			a, b, hasMax, okB := c13bound(loop, y, thr, okNorm, 0)
+			if !okB {
+				continue
+			}
+			edge := -1
+			switch op {
+			case token.LSS:
+				edge = 1
+			case token.LEQ:
+				edge, a, b = 1, a+1, b+1
+			case token.GEQ:
+				edge = 0
+			case token.GTR:
+				edge, a, b = 0, a+1, b+1
+			}
+			if edge < 0 {
+				continue
+			}
+			if neg {
+				edge = 1 - edge
+			}
+			cmps = append(cmps, c13cmp{cv, edge, a, b, hasMax})
+		}
+		okNormEff := false
+		// Close guards (every Close site of the loop)
+		for i, closeV := range closeVs {
+			guards := g.GuardsAt(closeV)
+			// the same two obligations asked of reachability: Close only over the closing branch of the comparison, the comparison
+			// and Close only after the increment, the comparison made with the threshold itself
+			okThrReach, okMNFReach := false, false
+			fromPing := g.succ[pingV]
+			for _, cm := range cmps {
+				viaOther := vw.reach(fromPing, func(v int) bool { return v == pingV }, func(u, k int) bool { return u == cm.ev && k == cm.closeEdge })
+				noInc := vw.reach(fromPing, func(v int) bool { return v == pingV || v == incV }, nil)
+				if incV >= 0 && !viaOther[closeV] && !noInc[closeV] && !noInc[cm.ev-1] && !noInc[cm.ev] && cm.a == 0 {
+					okThrReach = true
+				}
+				// (the clamp of small thresholds is a matter of its own: max(thr+a, b) with b-a = 1 starts to act below thr = 1)
+				if incV >= 0 && !viaOther[closeV] && cm.hasMax && cm.b-cm.a == 1 {
+					okNormEff = true
+				}
+			}
+			for _, cv := range g.condVertices() {
+				cond := g.Node(cv - 1).(ast.Expr)
+				in, neg := stripNot(cond)
+				ce, isCall := ast.Unparen(in).(*ast.CallExpr)
+				if !isCall || !loop.IsCallTo(ce, errIs) || loop.ObjOf(ce.Args[1]) != eMNF {
+					continue
+				}
+				t, f := g.BranchTargets(cv - 1)
+				if neg {
+					t = f
+				}
+				onMNF := vw.reach([]int{t}, func(v int) bool { return v == pingV }, nil)
+				around := vw.reach(fromPing, func(v int) bool { return v == pingV || v == cv-1 }, nil)
+				if !onMNF[closeV] && t != closeV && !around[closeV] {
+					okMNFReach = true
+				}
+			}
+			okThr := hasAtom(guards, func(a Atom) bool {
+				x, y, op, ok := cmpOn(a.E, func(e ast.Expr) bool { return loop.ObjOf(e) == ctr })
+				if !ok || loop.ObjOf(x) != ctr || !loop.Root().aliasesOf(loop.ObjOf(y))[types.Object(thr)] {
+					return false
+				}
+				return (op == token.LSS && !a.Val) || (op == token.GEQ && a.Val)
+			})
+			c.Check((okThr && incV >= 0 && g.Dominates(incV, closeV)) || okThrReach, "close#"+itoa(i)+":only-at-threshold", loop, g.Node(closeV), "session.Close() is reached only through the false branch of counter < threshold, after the increment (guards: %s): with <= or a missing increment the session closes one ping early or late", atomsString(guards))
+			c.Check(okMNFReach || hasAtom(guards, func(a Atom) bool {
+				ce, ok := a.E.(*ast.CallExpr)
+				return ok && !a.Val && loop.IsCallTo(ce, errIs) && loop.ObjOf(ce.Args[1]) == eMNF
+			}), "close#"+itoa(i)+":not-on-method-not-found", loop, g.Node(closeV), "a peer that reports ping as unsupported is not closed")
+		}
+		c.Pin("Close sites", len(closeVs), 1)
+		// method-not-found returns silently
+		okMNF := false
+		for _, cv := range g.condVertices() {
+			cond := g.Node(cv - 1).(ast.Expr)
+			if ce, ok := ast.Unparen(cond).(*ast.CallExpr); ok && loop.IsCallTo(ce, errIs) && loop.ObjOf(ce.Args[1]) == eMNF {
+				t, _ := g.BranchTargets(cv - 1)
+				seen := vw.reach([]int{t}, nil, nil)
+				okMNF = !seen[closeV] && !seen[pingV] && (incV < 0 || !seen[incV])
+			}
+		}
+		c.Check(okMNF, "method-not-found:silent-exit", loop, nil, "on method-not-found the goroutine exits without counting, pinging again or closing")
+		// after Close the loop ends
+		seen, _ := g.reach(g.succ[closeV], nil, nil)
+		c.Check(!seen[pingV], "close:then-exit", loop, g.Node(closeV), "after closing the session the goroutine exits")
+		c.Check(okNorm || okNormEff, "threshold:normalised", sk, nil, "failureThreshold < 1 is normalised to 1 before the goroutine starts")
 	})
 
 	c.Rule("R-C13-2", "timing structure: fixed tick period, per-ping timeout a constant fraction (≤ 1) of the interval and always released, loop exits on cancellation", func() {
@@ -285,22 +382,62 @@ func rulesC13(c *Ctx) {
 		wt := c.Std("context", "", "WithTimeout")
 		bg := c.Std("context", "", "Background")
 		n := 0
-		for _, call := range loop.CallsIn(loop.Body, wt, false) {
+		wtCalls := loop.CallsIn(loop.Body, wt, false)
+		if pingF != loop {
+			wtCalls = append(wtCalls, pingF.CallsIn(pingF.Body, wt, false)...)
+		}
+		for _, call := range wtCalls {
 			n++
+			cf := loop
+			if pingF != loop && encloses(pingF.Body, call) {
+				cf = pingF
+			}
 			parentOK := false
-			if ce, ok := ast.Unparen(call.Args[0]).(*ast.CallExpr); ok && loop.IsCallTo(ce, bg) {
+			if ce, ok := ast.Unparen(call.Args[0]).(*ast.CallExpr); ok && cf.IsCallTo(ce, bg) {
 				parentOK = true
 			}
-			frac := false
-			switch d := ast.Unparen(loop.valueOf(call.Args[1])).(type) {
-			case *ast.BinaryExpr:
-				if k, isC := loop.ConstInt(d.Y); d.Op == token.QUO && loop.ObjOf(loop.valueOf(d.X)) == types.Object(interval) && isC && k >= 1 {
-					frac = true
-				}
-			case *ast.Ident:
-				frac = loop.ObjOf(d) == types.Object(interval)
+			// the deadline as a fraction of the interval, followed through locals that are computed once (interval/2 hoisted
+			// out of the loop, halved again where it is used, …)
+			num, den, isFrac := c13fraction(cf, call.Args[1], interval, 0)
+			frac := isFrac && num >= 1 && den >= num
+			c.Check(parentOK && frac, "ping:timeout", cf, call, "each ping runs under WithTimeout(Background, interval/k) with constant k >= 1 (got %s)", exprStr(call.Args[1]))
+			if parentOK && frac {
+				c.Check(num*2 == den, "ping:timeout-is-half-an-interval", cf, call, "a ping may take half an interval (the deadline is %d/%d of it): with a shorter one a peer that answers within the documented half interval is counted as a miss and closed, with a longer one a dead peer is closed later than N intervals plus half", num, den)
 			}
-			c.Check(parentOK && frac, "ping:timeout", loop, call, "each ping runs under WithTimeout(Background, interval/k) with constant k >= 1 (got %s)", exprStr(call.Args[1]))
+			if cf != loop {
+				// the ping runs in a literal of its own: the context is released when that literal returns
+				as, _ := cf.ParentOf(call).(*ast.AssignStmt)
+				var cancel types.Object
+				if as != nil && len(as.Lhs) == 2 {
+					cancel = cf.ObjOf(as.Lhs[1])
+				}
+				okC := false
+				inspectNoLit(cf.Body, func(x ast.Node) {
+					if d, isD := x.(*ast.DeferStmt); isD && cancel != nil && cf.ObjOf(d.Call.Fun) == cancel && cf.ParentOf(d) == ast.Node(cf.Body) {
+						okC = true
+					}
+				})
+				for _, cc := range cf.AllCalls(cf.Body, false) {
+					if cancel != nil && cf.ObjOf(cc.Fun) == cancel {
+						if _, isD := cf.ParentOf(cc).(*ast.DeferStmt); !isD {
+							cg := cf.Graph()
+							pv := -1
+							for _, pc := range cf.AllCalls(cf.Body, false) {
+								if nm, on := cf.SelectorOn(pc.Fun, session); on && nm == "Ping" {
+									pv = cg.VertexOf(pc)
+								}
+							}
+							if pv >= 0 {
+								if okp, _ := cg.MustPass(pv, cg.Exits, func(u int) bool { return u == cg.VertexOf(cc) }); okp {
+									okC = true
+								}
+							}
+						}
+					}
+				}
+				c.Check(okC, "ping:timeout-released", cf, call, "the ping context's cancel function is called after every ping before anything else happens")
+				continue
+			}
 			// cancel called right after the ping on all paths
 			as, _ := loop.ParentOf(call).(*ast.AssignStmt)
 			var cancel types.Object
@@ -589,12 +726,73 @@ func rulesC14(c *Ctx) {
 		}
 		return -1
 	}
+	// altScope403: a 403 refusal that no slices.Contains test stands in front of, decided instead by tests on the granted or
+	// required scope lists (their lengths, a set built from them): scope containment is (also) computed by a mechanism other
+	// than the per-scope Contains loop. What that mechanism answers is not expressed by a valuation of Contains, so a scenario
+	// that only assumes "Contains holds" cannot decide such a return.
+	altScope403 := func(r *ast.ReturnStmt) bool {
+		if codeOf(r) != 403 {
+			return false
+		}
+		guards := g.GuardsAt(g.VertexOf(r))
+		mentionsScopes := false
+		for _, a := range guards {
+			hasContains := false
+			ast.Inspect(a.E, func(n ast.Node) bool {
+				switch x := n.(type) {
+				case *ast.CallExpr:
+					if fn := v.Callee(x); fn != nil && fn.Name() == "Contains" {
+						hasContains = true
+					}
+				case *ast.SelectorExpr:
+					if fv, isF := v.ObjOf(x.Sel).(*types.Var); isF && fv.IsField() && fv.Name() == "Scopes" {
+						mentionsScopes = true
+					}
+				}
+				return true
+			})
+			if hasContains {
+				return false
+			}
+		}
+		if !mentionsScopes {
+			return false
+		}
+		// … and it is taken after a loop over one of the scope lists has run (a set or tally was built): a plain test of a
+		// length in front of everything is no containment mechanism, and is judged by the scenarios as it stands
+		afterLoop := false
+		inspectNoLit(v.Body, func(n ast.Node) {
+			rs, ok := n.(*ast.RangeStmt)
+			if !ok {
+				return
+			}
+			if sel, isSel := ast.Unparen(v.valueOf(rs.X)).(*ast.SelectorExpr); isSel && sel.Sel.Name == "Scopes" && !encloses(rs, r) {
+				if g.Dominates(g.VertexOf(rs.X), g.VertexOf(r)) {
+					afterLoop = true
+				}
+			}
+		})
+		return afterLoop
+	}
+	wants := func(want []int64, k int64) bool {
+		for _, w := range want {
+			if w == k {
+				return true
+			}
+		}
+		return false
+	}
 	scenario := func(key string, leaf func(ast.Expr) tri, want []int64, why string) {
 		seen := g.ReachUnder(leaf, nil)
 		c.paths++
 		got := map[int64]bool{}
+		altSeen := false
 		for _, r := range v.Returns() {
 			if !seen[g.VertexOf(r)] {
+				continue
+			}
+			if !wants(want, 403) && altScope403(r) {
+				altSeen = true
 				continue
 			}
 			k := codeOf(r)
@@ -683,6 +881,10 @@ func rulesC14(c *Ctx) {
 		for k := range got {
 			gs = append(gs, k)
 		}
+		if ok && len(got) > 0 && altSeen {
+			c.Undecided(key, v, nil, "%s: reachable codes %v as expected, but a 403 refusal stays reachable that is decided by a scope-containment mechanism other than the Contains loop (not expressed by this valuation)", why, gs)
+			return
+		}
 		c.Check(ok && len(got) > 0, key, v, nil, "%s: admitting return reachable=%v, reachable codes %v (expected only %v)", why, seen[av], gs, want)
 	}
 	// the converse direction: under a valuation in which every check passes, admission is reachable and no rejection is
@@ -690,10 +892,19 @@ func rulesC14(c *Ctx) {
 		seen := g.ReachUnder(leaf, nil)
 		c.paths++
 		var rej []int64
+		altSeen := false
 		for _, r := range v.Returns() {
 			if seen[g.VertexOf(r)] && r != admit {
+				if altScope403(r) {
+					altSeen = true
+					continue
+				}
 				rej = append(rej, codeOf(r))
 			}
+		}
+		if seen[av] && len(rej) == 0 && altSeen {
+			c.Undecided(key, v, admit, "%s: admission is reachable and no other rejection is, but a 403 refusal stays reachable that is decided by a scope-containment mechanism other than the Contains loop (not expressed by this valuation)", why)
+			return
 		}
 		c.Check(seen[av] && len(rej) == 0, key, v, admit, "%s: admitting return reachable=%v, rejections still reachable %v (expected none)", why, seen[av], rej)
 	}
@@ -769,7 +980,8 @@ func rulesC14(c *Ctx) {
 		for _, call := range v.AllCalls(v.Body, false) {
 			if fn := v.Callee(call); fn != nil && fn.FullName() == "(time.Time).Before" && len(call.Args) == 1 {
 				if nc, ok := ast.Unparen(call.Args[0]).(*ast.CallExpr); ok && v.IsCallTo(nc, now) {
-					recv := ast.Unparen(call.Fun).(*ast.SelectorExpr).X
+					// (a local that holds the sum, computed once, is the sum)
+					recv := v.valueOf(ast.Unparen(call.Fun).(*ast.SelectorExpr).X)
 					if add, ok := ast.Unparen(recv).(*ast.CallExpr); ok && v.Callee(add) != nil && v.Callee(add).Name() == "Add" && len(add.Args) == 1 {
 						s, isS := ast.Unparen(add.Args[0]).(*ast.SelectorExpr)
 						if id, isID := ast.Unparen(add.Args[0]).(*ast.Ident); isID && !isS {
@@ -807,6 +1019,24 @@ func rulesC14(c *Ctx) {
 			}
 		}
 		c.Check(okForm, "verify:expiry-normal-form", v, nil, "the expiry test is tokenInfo.Expiration.Add(opts.ClockSkew).Before(time.Now())")
+		// "lacks an expiration" is asked of the verifier's Expiration itself: a time derived from it (skew added, converted,
+		// truncated) is zero for other tokens than the ones that carry no expiration
+		for i, call := range v.AllCalls(v.Body, false) {
+			fn := v.Callee(call)
+			if fn == nil || fn.FullName() != "(time.Time).IsZero" || !g.isCondition(call) {
+				continue
+			}
+			recv := ast.Unparen(v.valueOf(ast.Unparen(call.Fun).(*ast.SelectorExpr).X))
+			okRecv := false
+			if sel, isSel := recv.(*ast.SelectorExpr); isSel {
+				if fv, isF := v.ObjOf(sel.Sel).(*types.Var); isF && fv.IsField() && fv.Name() == "Expiration" && v.ObjOf(v.valueOf(sel.X)) == tokVar {
+					okRecv = true
+				}
+			}
+			if _, isCall := recv.(*ast.CallExpr); isCall || okRecv {
+				c.Check(okRecv, "verify:missing-expiration-asked-of-the-token#"+itoa(i), v, call, "the test for a missing expiration reads tokenInfo.Expiration itself (got %s): after adding the skew or any other arithmetic a missing expiration is no longer the zero time", exprStr(recv))
+			}
+		}
 		// scope containment: a loop over opts.Scopes on every path from the verifier to admission when opts != nil
 		okScope := false
 		inspectNoLit(v.Body, func(n ast.Node) {
@@ -850,7 +1080,65 @@ func rulesC14(c *Ctx) {
 				}
 			}
 		})
-		c.Check(okScope, "verify:every-required-scope-checked", v, nil, "when options are given, every path from the verifier to admission runs the loop that returns 403 at the first required scope not granted")
+		// a tally of matches kept while walking the *granted* scopes counts a scope that is granted twice twice (the list is
+		// whatever the verifier returned): it may only decide when every match also removes the matched scope from the set of
+		// those still looked for
+		inspectNoLit(v.Body, func(n ast.Node) {
+			rs, ok := n.(*ast.RangeStmt)
+			if !ok {
+				return
+			}
+			sel, isSel := ast.Unparen(v.valueOf(rs.X)).(*ast.SelectorExpr)
+			if !isSel || sel.Sel.Name != "Scopes" || v.ObjOf(v.valueOf(sel.X)) != tokVar {
+				return
+			}
+			for _, w := range Writes(rs.Body, false) {
+				step := false
+				switch st := w.Stmt.(type) {
+				case *ast.IncDecStmt:
+					step = true
+				case *ast.AssignStmt:
+					step = st.Tok == token.ADD_ASSIGN || st.Tok == token.SUB_ASSIGN
+				}
+				o, _ := v.ObjOf(w.LHS).(*types.Var)
+				if !step || o == nil || o.IsField() {
+					continue
+				}
+				decides := false
+				for _, cv := range g.condVertices() {
+					ast.Inspect(g.Node(cv-1), func(x ast.Node) bool {
+						if id, isID := x.(*ast.Ident); isID && v.ObjOf(id) == types.Object(o) {
+							decides = true
+						}
+						return !decides
+					})
+				}
+				if !decides {
+					continue
+				}
+				wv := g.VertexOf(w.Stmt)
+				removed := false
+				for _, call := range v.AllCalls(rs.Body, false) {
+					if v.BuiltinName(call) == "delete" && len(call.Args) == 2 && rs.Value != nil && v.ObjOf(call.Args[1]) == v.ObjOf(rs.Value) {
+						if dv := g.VertexOf(call); g.Dominates(dv, wv) || g.Dominates(wv, dv) {
+							removed = true
+						}
+					}
+				}
+				c.Check(removed, "verify:scope-tally-counts-each-scope-once", v, w.Stmt, "a count of matching scopes kept over the granted list decides about 403: each match removes the scope from the set still looked for (otherwise a scope granted twice pays for a required one that is missing)")
+			}
+		})
+		altScope := false
+		for _, r := range v.Returns() {
+			if altScope403(r) {
+				altScope = true
+			}
+		}
+		if !okScope && altScope {
+			c.Undecided("verify:every-required-scope-checked", v, nil, "scope containment is (also) decided by a mechanism other than the loop over the required scopes that asks Contains of the granted ones: whether it refuses exactly when a required scope is missing is not decided here")
+		} else {
+			c.Check(okScope, "verify:every-required-scope-checked", v, nil, "when options are given, every path from the verifier to admission runs the loop that returns 403 at the first required scope not granted")
+		}
 		// the admitted value is the verifier's
 		c.Check(v.ObjOf(admit.Results[0]) == tokVar && len(v.writesToVar(v.Body, tokVar, true)) == 1, "verify:admits-verifier-value", v, admit, "the TokenInfo handed on is exactly the verifier's result")
 		// … and unmodified: nothing is written through the verifier's pointer or through a copy of that pointer
@@ -1269,6 +1557,361 @@ func rulesC14(c *Ctx) {
 	})
 	ruleNoSilent200(c, "R-C14-4", []string{"auth"}, nil, 2, 4)
 	ruleHeadersBeforeStatus(c, "R-C14-5", []string{"auth"}, 2)
+}
+
+// c13directIn: call lies in the node n of f's graph itself, not inside a function literal.
+func c13directIn(f *Func, n ast.Node, call *ast.CallExpr) bool {
+	for _, cc := range f.AllCalls(n, false) {
+		if cc == call {
+			return true
+		}
+	}
+	return false
+}
+
+// c13pingLit: call lies in a literal that the node n invokes on the spot (`err := func() error { … }()`), and what that
+// invocation yields is the result of call: every return of the literal hands back the call's value. Returns the literal.
+func c13pingLit(f *Func, n ast.Node, call *ast.CallExpr) *Func {
+	for _, l := range f.Lits() {
+		if !encloses(n, l.Lit) || !encloses(l.Body, call) || !c13directIn(l, l.Body, call) {
+			continue
+		}
+		inv, isCall := f.ParentOf(l.Lit).(*ast.CallExpr)
+		if !isCall {
+			if pe, isP := f.ParentOf(l.Lit).(*ast.ParenExpr); isP {
+				inv, isCall = f.ParentOf(pe).(*ast.CallExpr)
+			}
+		}
+		if !isCall || ast.Unparen(inv.Fun) != ast.Expr(l.Lit) {
+			continue
+		}
+		if _, isGo := f.ParentOf(inv).(*ast.GoStmt); isGo {
+			continue
+		}
+		if _, isDefer := f.ParentOf(inv).(*ast.DeferStmt); isDefer {
+			continue
+		}
+		ok := len(l.Returns()) > 0
+		for _, r := range l.Returns() {
+			if len(r.Results) != 1 || ast.Unparen(l.valueOf(r.Results[0])) != ast.Expr(call) {
+				ok = false
+			}
+		}
+		if ok {
+			return l
+		}
+	}
+	return nil
+}
+
+// c13fraction: e, read in f, as a constant fraction num/den of the variable base; locals that are written once stand for
+// their definition.
+func c13fraction(f *Func, e ast.Expr, base *types.Var, depth int) (num, den int64, ok bool) {
+	if depth > 6 {
+		return 0, 0, false
+	}
+	e = ast.Unparen(e)
+	switch x := e.(type) {
+	case *ast.Ident:
+		if f.ObjOf(x) == types.Object(base) {
+			return 1, 1, true
+		}
+		if nx := f.valueOf(x); nx != ast.Expr(x) {
+			return c13fraction(f, nx, base, depth+1)
+		}
+	case *ast.BinaryExpr:
+		if x.Op == token.QUO {
+			if k, isC := f.ConstInt(x.Y); isC && k >= 1 {
+				if n, d, okX := c13fraction(f, x.X, base, depth+1); okX {
+					return n, d * k, true
+				}
+			}
+		}
+		if x.Op == token.MUL {
+			for _, pr := range [][2]ast.Expr{{x.X, x.Y}, {x.Y, x.X}} {
+				if k, isC := f.ConstInt(pr[1]); isC && k >= 1 {
+					if n, d, okX := c13fraction(f, pr[0], base, depth+1); okX {
+						return n * k, d, true
+					}
+				}
+			}
+		}
+	}
+	return 0, 0, false
+}
+
+// c13view is the graph of the keep-alive goroutine read with one "verdict" local followed: a local that is only ever given
+// constants (its bare declaration counts as the zero constant) and that branch conditions compare with constants — the
+// shape a decision takes when the code that decides and the code that acts are separated (classify, then switch on the
+// class). Reachability over (vertex, last constant written) prunes the tests of that local whose outcome is known; with no
+// such local it is the plain reachability of the graph.
+type c13view struct {
+	g      *Graph
+	t      types.Object
+	vals   []int64         // index 0 stands for "unknown"
+	write  map[int]int     // vertex that writes t -> index into vals (0: not a constant)
+	pruned map[[3]int]bool // (end vertex, value index, successor index) cannot be taken
+}
+
+func c13newView(loop *Func, g *Graph) *c13view {
+	vw := &c13view{g: g, vals: []int64{0}, write: map[int]int{}, pruned: map[[3]int]bool{}}
+	// candidates: locals declared in the goroutine whose every write is a constant
+	type cand struct {
+		ws    []Write
+		vals  []int64
+		allOK bool
+	}
+	cands := map[types.Object]*cand{}
+	var order []types.Object
+	for _, w := range Writes(loop.Body, true) {
+		id, isID := ast.Unparen(w.LHS).(*ast.Ident)
+		if !isID || id.Name == "_" {
+			continue
+		}
+		o, _ := loop.ObjOf(id).(*types.Var)
+		if o == nil || o.IsField() || !(loop.Body.Pos() <= o.Pos() && o.Pos() <= loop.Body.End()) {
+			continue
+		}
+		cd := cands[o]
+		if cd == nil {
+			cd = &cand{allOK: true}
+			cands[o] = cd
+			order = append(order, o)
+		}
+		cd.ws = append(cd.ws, w)
+	}
+	idx := func(k int64) int {
+		for i := 1; i < len(vw.vals); i++ {
+			if vw.vals[i] == k {
+				return i
+			}
+		}
+		vw.vals = append(vw.vals, k)
+		return len(vw.vals) - 1
+	}
+	constOf := func(e ast.Expr) (int64, bool) {
+		if _, isLit := ast.Unparen(e).(*ast.BasicLit); !isLit {
+			if _, isID := ast.Unparen(e).(*ast.Ident); !isID {
+				if _, isSel := ast.Unparen(e).(*ast.SelectorExpr); !isSel {
+					return 0, false
+				}
+			}
+		}
+		return loop.ConstInt(e)
+	}
+	testOf := func(o types.Object, e ast.Expr) (k int64, eq bool, ok bool) {
+		x, y, op, isCmp := binaryCmp(e)
+		if !isCmp || (op != token.EQL && op != token.NEQ) {
+			return 0, false, false
+		}
+		if loop.ObjOf(y) == o {
+			x, y = y, x
+		}
+		if loop.ObjOf(x) != o {
+			return 0, false, false
+		}
+		k, isC := constOf(y)
+		return k, op == token.EQL, isC
+	}
+	// the condition of each two-way block, as ReachUnder reads it
+	conds := map[int]ast.Expr{}
+	for i, b := range g.C.Blocks {
+		if !b.Live || len(b.Succs) != 2 || len(b.Nodes) == 0 {
+			continue
+		}
+		cond, ok := b.Nodes[len(b.Nodes)-1].(ast.Expr)
+		if !ok {
+			continue
+		}
+		ev := g.off[i] + len(b.Nodes)
+		switch b.Succs[0].Kind {
+		case cfg.KindIfThen, cfg.KindForBody:
+			conds[ev] = cond
+		case cfg.KindSwitchCaseBody:
+			cc, _ := b.Succs[0].Stmt.(*ast.CaseClause)
+			var sw *ast.SwitchStmt
+			if cc != nil {
+				if blk, ok := loop.ParentOf(cc).(*ast.BlockStmt); ok {
+					sw, _ = loop.ParentOf(blk).(*ast.SwitchStmt)
+				}
+			}
+			if sw == nil {
+				continue
+			}
+			if sw.Tag != nil {
+				conds[ev] = &ast.BinaryExpr{X: sw.Tag, Op: token.EQL, Y: cond}
+			} else {
+				conds[ev] = cond
+			}
+		}
+	}
+	for _, o := range order {
+		cd := cands[o]
+		for _, w := range cd.ws {
+			if encloses(loop.Body, w.Stmt) && g.VertexOf(w.Stmt) < 0 {
+				cd.allOK = false
+			}
+			if w.RHS == nil {
+				if _, isVS := w.Stmt.(*ast.ValueSpec); !isVS {
+					cd.allOK = false
+				}
+				continue
+			}
+			if _, isC := constOf(w.RHS); !isC {
+				cd.allOK = false
+			}
+		}
+		// written inside a nested literal: not followed
+		n := 0
+		for _, w := range Writes(loop.Body, false) {
+			if loop.ObjOf(w.LHS) == o {
+				n++
+			}
+		}
+		if !cd.allOK || n != len(cd.ws) || loop.addressTaken(o) {
+			continue
+		}
+		tested := false
+		for _, cond := range conds {
+			var as []Atom
+			splitAtoms(cond, true, &as)
+			for _, a := range as {
+				if _, _, ok := testOf(o, a.E); ok {
+					tested = true
+				}
+			}
+		}
+		if !tested {
+			continue
+		}
+		vw.t = o
+		for _, w := range cd.ws {
+			wv := g.VertexOf(w.Stmt)
+			if w.RHS == nil {
+				vw.write[wv] = idx(0)
+			} else {
+				k, _ := constOf(w.RHS)
+				vw.write[wv] = idx(k)
+			}
+		}
+		break
+	}
+	if vw.t == nil {
+		return vw
+	}
+	for ev, cond := range conds {
+		for vi := 1; vi < len(vw.vals); vi++ {
+			val := vw.vals[vi]
+			res := evalTri(cond, func(e ast.Expr) tri {
+				if k, eq, ok := testOf(vw.t, e); ok {
+					if (k == val) == eq {
+						return triTrue
+					}
+					return triFalse
+				}
+				return triUnknown
+			})
+			switch res {
+			case triTrue:
+				vw.pruned[[3]int{ev, vi, 1}] = true
+			case triFalse:
+				vw.pruned[[3]int{ev, vi, 0}] = true
+			}
+		}
+	}
+	return vw
+}
+
+// reach: the vertices reachable from starts (the verdict local unknown there) without entering a blocked vertex or taking a
+// blocked edge.
+func (vw *c13view) reach(starts []int, blocked func(int) bool, blockedEdge func(u, k int) bool) []bool {
+	g := vw.g
+	if vw.t == nil {
+		seen, _ := g.reach(starts, blocked, blockedEdge)
+		return seen
+	}
+	nv := len(vw.vals)
+	seenS := make([]bool, g.N*nv)
+	seen := make([]bool, g.N)
+	type st struct{ v, vi int }
+	var q []st
+	for _, s := range starts {
+		seenS[s*nv] = true
+		seen[s] = true
+		q = append(q, st{s, 0})
+	}
+	for len(q) > 0 {
+		u := q[0]
+		q = q[1:]
+		vi := u.vi
+		if w, isW := vw.write[u.v]; isW {
+			vi = w
+		}
+		for k, s := range g.succ[u.v] {
+			if vw.pruned[[3]int{u.v, vi, k}] || (blockedEdge != nil && blockedEdge(u.v, k)) {
+				continue
+			}
+			if blocked != nil && blocked(s) {
+				continue
+			}
+			if seenS[s*nv+vi] {
+				continue
+			}
+			seenS[s*nv+vi] = true
+			seen[s] = true
+			q = append(q, st{s, vi})
+		}
+	}
+	return seen
+}
+
+// c13bound: e, read in f, as max(thr+a, b) (hasMax) or thr+a: the value a comparison of the miss counter is made with, in
+// terms of the configured threshold. normParam says that the parameter itself has been raised to at least 1 before.
+func c13bound(f *Func, e ast.Expr, thr *types.Var, normParam bool, depth int) (a, b int64, hasMax, ok bool) {
+	if depth > 6 {
+		return
+	}
+	e = ast.Unparen(e)
+	switch x := e.(type) {
+	case *ast.Ident:
+		if o := f.ObjOf(x); o == types.Object(thr) || (o != nil && f.Root().aliasesOf(o)[types.Object(thr)]) {
+			if normParam {
+				return 0, 1, true, true
+			}
+			return 0, 0, false, true
+		}
+		if nx := f.valueOf(x); nx != ast.Expr(x) {
+			return c13bound(f, nx, thr, normParam, depth+1)
+		}
+	case *ast.BinaryExpr:
+		if k, isC := f.ConstInt(x.Y); isC && (x.Op == token.ADD || x.Op == token.SUB) {
+			if x.Op == token.SUB {
+				k = -k
+			}
+			if a, b, hasMax, ok = c13bound(f, x.X, thr, normParam, depth+1); ok {
+				return a + k, b + k, hasMax, true
+			}
+		}
+		if k, isC := f.ConstInt(x.X); isC && x.Op == token.ADD {
+			if a, b, hasMax, ok = c13bound(f, x.Y, thr, normParam, depth+1); ok {
+				return a + k, b + k, hasMax, true
+			}
+		}
+	case *ast.CallExpr:
+		if f.BuiltinName(x) == "max" && len(x.Args) == 2 {
+			for _, pr := range [][2]ast.Expr{{x.Args[0], x.Args[1]}, {x.Args[1], x.Args[0]}} {
+				if k, isC := f.ConstInt(pr[1]); isC {
+					if a, b, hasMax, ok = c13bound(f, pr[0], thr, normParam, depth+1); ok {
+						if !hasMax || k > b {
+							b = k
+						}
+						return a, b, true, true
+					}
+				}
+			}
+		}
+	}
+	return 0, 0, false, false
 }
 
 // isCompound: &&, || and ! nodes (their operands are listed as atoms of their own).
